@@ -451,6 +451,14 @@ fn array_long() {
     go_array3(3, S_LONG, E_ALL, wit_some);
 }
 
+// @verif family=SEQ thorough=C08,C06 timeout=3600 mem=24
+// @bounds kind=ConIterOfIter<Tracked,OwningProbe> len<=3, buffered chunk size 2; prefix<=2 next(); any pull (single / chunk n<=len+2 / buffered x2); any pull or len query or skip_to_end; single/chunk/len; end in {drop, into_seq_iter all/partly}; drop ledger
+#[kani::proof]
+#[kani::unwind(6)]
+fn iter_owning_long() {
+    go_iter_owning(3, 2, S_LONG, E_ALL, wit_some, 2);
+}
+
 // ------------------------------------------------------------------------------------------------
 // C09 on the wrapper, single-threaded: with the memory-backed hook every atomic access is counted; an
 // operation that performs more than 12 loads in a row without any write is spinning on a memory that
